@@ -55,7 +55,10 @@ fn fam_tree(bytes: &[u8], ctx: &Ctx) -> CaseInfo {
     cfg.max_depth = 3;
     cfg.kinds = crate::ast::Kind::ALL.to_vec();
     let p = gen_tree(&mut s, &cfg);
-    check(&p, &[Mode::Bfs, Mode::Dfs], "tree", ctx)
+    // a third of the cases each in one of the builder's construction modes (macro expansion,
+    // from_conjunctions / from_vec, pairwise new)
+    let mode = (bytes.iter().map(|b| *b as u32).sum::<u32>() % 3) as u8;
+    crate::build::with_api_mode(mode, || check(&p, &[Mode::Bfs, Mode::Dfs], "tree", ctx))
 }
 
 fn fam_search(bytes: &[u8], ctx: &Ctx) -> CaseInfo {
@@ -65,7 +68,8 @@ fn fam_search(bytes: &[u8], ctx: &Ctx) -> CaseInfo {
     cfg.max_depth = 4;
     cfg.nq_max = 3;
     let p = gen_search(&mut s, &cfg);
-    check(&p, &[Mode::Bfs, Mode::Dfs], "search", ctx)
+    let mode = (bytes.iter().map(|b| *b as u32).sum::<u32>() % 3) as u8;
+    crate::build::with_api_mode(mode, || check(&p, &[Mode::Bfs, Mode::Dfs], "search", ctx))
 }
 
 fn fam_fd(bytes: &[u8], ctx: &Ctx) -> CaseInfo {
